@@ -50,6 +50,11 @@ def plan(tier, seed):
     for a in PSYMS + ["rs"]:
         specs.append({"name": f"restart-{a}", "kind": "restart", "first": a, "budget_s": 120 if tier == "quick" else 600,
                       "length": 4 if tier == "quick" else 5})
+    # a configuration that cannot be stored (symbol cx): every sequence of 2..4 symbols over {cx, c1, u1, s, re, rs} that
+    # contains it, reconnects after the cleanup, inside it, and late
+    for a in ["cx", "c1", "u1", "s", "re", "rs"]:
+        specs.append({"name": f"unstorable-{a}", "kind": "unstorable", "first": a, "budget_s": 120 if tier == "quick" else 600,
+                      "length": 4 if tier == "quick" else 5})
     # bursts: 2..4 requests written back-to-back on one connection, without waiting for the replies
     for a in PSYMS:
         specs.append({"name": f"burst-{a}", "kind": "burst", "first": a, "depth": 3 if tier == "quick" else 4,
@@ -106,7 +111,7 @@ class Model:
             return "refused"
         if sym == "s":
             return ("result", self.edb) if self.state == 2 else "refused"
-        if sym == "un":
+        if sym in ("un", "cx"):
             return "refused"
         return None
 
@@ -182,7 +187,13 @@ class Runner:
                 if not conn.is_open:
                     if not await connect("after-closure"):
                         return
-                if sym in ("c1", "c2"):
+                if sym == "cx":
+                    # a configuration that passes every check a protocol handler can make on a dict but cannot be stored
+                    # as JSON (raw bytes / a set as a value): never acknowledged, so nothing may change
+                    bad_cfg = dict(fx.c1, salt=rng.choice([b"\x00\x01raw-bytes", {"a", "b"}, 1 + 2j]))
+                    await conn.send("config", pickle.dumps(bad_cfg))
+                    acc.count("unstorable_configurations_sent")
+                elif sym in ("c1", "c2"):
                     await conn.send("config", pickle.dumps(getattr(fx, sym)))
                 elif sym in ("u1", "u2"):
                     await conn.send("upload_edb", fx.edb["e" + sym[1]])
@@ -258,7 +269,7 @@ class Runner:
                 else:
                     t, verdict, payload = wh.decode_reply(ev[1])
                     want_type = {"c": "config", "u": "upload_edb", "s": "result"}.get(sym[0])
-                    if t != want_type and sym != "un":
+                    if t != want_type and sym not in ("un",):
                         trace.append([sym, ["unexpected-message", t, verdict]])
                         viol("unexpected-message", f"after {sym} a message of type {t!r} ({verdict}) arrived; "
                                                    f"expected a reply of type {want_type!r}")
@@ -508,6 +519,22 @@ async def amain(spec, acc, ctx, virtual=True):
                             any(x in ("c1", "u1", "u2", "c2") for x in sq[:sq.index("re")]):
                         await retry_on_timeout(acc, lambda: r.run_sequence(sq, gated="late"))
         acc.add("exhaustive_prefixes", "".join(pre))
+    elif kind == "unstorable":
+        al = ["cx", "c1", "u1", "s", "re", "rs"]
+        for L in range(2, spec["length"] + 1):
+            for rest in itertools.product(al, repeat=L - 1):
+                sq = [spec["first"]] + list(rest)
+                if "cx" not in sq:
+                    continue
+                if ctx.out_of_time() or acc.counters.get("timeouts", 0) > 3 or acc.n_violations > 25:
+                    acc.count("unstorable_incomplete")
+                    await server.stop()
+                    return
+                await retry_on_timeout(acc, lambda: r.run_sequence(sq, gated=False))
+                if "rs" not in sq and "re" in sq:
+                    await retry_on_timeout(acc, lambda: r.run_sequence(sq, gated=True))
+                acc.count("unstorable_sequences")
+        acc.add("unstorable_prefixes", spec["first"])
     elif kind == "restart":
         for rest in itertools.product(PSYMS + ["rs"], repeat=spec["length"] - 1):
             sq = [spec["first"]] + list(rest)
@@ -535,7 +562,7 @@ async def amain(spec, acc, ctx, virtual=True):
             if ctx.out_of_time() or acc.counters.get("timeouts", 0) > 3 or acc.n_violations > 25:
                 break
             n = ctx.rng.randint(4, 12) if i % 5 else ctx.rng.randint(20, 40)   # every fifth: a long conversation
-            sq = [ctx.rng.choice(SYMS + (["rs"] if i % 3 == 0 else [])) for _ in range(n)]
+            sq = [ctx.rng.choice(SYMS + ["cx"] + (["rs"] if i % 3 == 0 else [])) for _ in range(n)]
             if n >= 20:
                 acc.count("long_sequences")
                 sq = ["c1"] + sq[:5] + ["u1"] + sq[5:]
@@ -586,6 +613,8 @@ def finish(m, tier, seed):
     exhaustive = len(m["sets"].get("exhaustive_prefixes", [])) == want_pref and not c.get("exhaustive_incomplete")
     if not exhaustive:
         inc.append("the exhaustive enumeration did not complete")
+    if len(m["sets"].get("unstorable_prefixes", [])) < 6 or c.get("unstorable_incomplete"):
+        inc.append("the enumeration of sequences with an unstorable configuration did not complete")
     if len(m["sets"].get("restart_prefixes", [])) < len(PSYMS) + 1 or c.get("restart_incomplete"):
         inc.append("the enumeration of sequences with a server restart did not complete")
     for k in ("search_requests.other", "search_requests.absent", "search_requests.digest-omitted",
